@@ -258,7 +258,10 @@ func genConfig(r *vlib.R) *genCfg {
 	case 2, 3, 4:
 		g.x6Nil = false
 		pool := []ent{e6("20010db8000000000000000000000000", 32), e6("00000000000000000000ffff00000000", 96), e4("0a000000", 8), {kind: 'b'},
-			e6("20010db8000000000000000000000001", 128), e6("00000000000000000000ffff0a000000", 104)}
+			e6("20010db8000000000000000000000001", 128), e6("00000000000000000000ffff0a000000", 104),
+			// lengths that are not a whole number of octets: ULA, link-local, a /33, global unicast /3
+			e6("fc000000000000000000000000000000", 7), e6("fe800000000000000000000000000000", 10),
+			e6("20010db8800000000000000000000000", 33), e6("20000000000000000000000000000000", 3), e6("20010db8000000000000000000000000", 47)}
 		for i, k := 0, 1+r.Intn(3); i < k; i++ {
 			g.x6 = append(g.x6, vlib.Pick(r, pool))
 		}
@@ -289,7 +292,11 @@ func (g *genCfg) line() string {
 var ttlPool = []int{0, 1, 29, 30, 59, 60, 61, 300, 599, 600, 601, 3600, 86400}
 
 var aaaaPool = []string{"20010db8000000000000000000000001", "20010db8000000000000000000000002", "00000000000000000000ffff0a000001",
-	"00000000000000000000ffffc0000221", "26064700470000000000000000001111", "0064ff9b0000000000000000c0000221", "00000000000000000000000000000001"}
+	"00000000000000000000ffffc0000221", "26064700470000000000000000001111", "0064ff9b0000000000000000c0000221", "00000000000000000000000000000001",
+	// both sides of the non-octet exclusion boundaries
+	"fd000000000000000000000000000001", "fbff0000000000000000000000000001", "fe000000000000000000000000000001", "fe800000000000000000000000000001",
+	"febf0000000000000000000000000001", "fec00000000000000000000000000001", "20010db8800000000000000000000001", "20010db87fffffff0000000000000001",
+	"20010db8000100000000000000000001", "20010db8000200000000000000000001", "40000000000000000000000000000001", "3fff0000000000000000000000000001"}
 
 func genClient(r *vlib.R, g *genCfg, eligible bool) string {
 	cands := []string{"4:cb007105", "4:c0a80107", "4:0a010203", "6:20010db8000000000000000000000099", "6:fd001234000000000000000000000001",
